@@ -106,5 +106,52 @@ def main():
     sys.exit(1 if fails else 0)
 
 
+def main_shunt():
+    """shunts (step, own voltage rating, missing rating), wards, xwards: voltage law of the results and nodal balance at their buses"""
+    fails = []
+    net = pp.create_empty_network()
+    b = pp.create_buses(net, 4, 20.)
+    pp.create_ext_grid(net, b[0], vm_pu=1.03)
+    for f, t in ((0, 1), (1, 2), (2, 3)):
+        pp.create_line_from_parameters(net, b[f], b[t], 6., 0.12, 0.11, 250., 0.6)
+    pp.create_load(net, b[3], 4., 1.5)
+    pp.create_shunt(net, b[1], q_mvar=-0.9, p_mw=0.04, vn_kv=21., step=2, max_step=3)
+    pp.create_shunt(net, b[1], q_mvar=0.5, p_mw=0.02, step=1)
+    pp.create_shunt(net, b[2], q_mvar=0.7, p_mw=0.03, vn_kv=19., step=3, max_step=3, in_service=False)
+    pp.create_ward(net, b[2], ps_mw=0.6, qs_mvar=0.2, pz_mw=0.5, qz_mvar=0.3)
+    pp.create_ward(net, b[3], ps_mw=0.1, qs_mvar=0.1, pz_mw=0.2, qz_mvar=-0.1)
+    pp.create_xward(net, b[2], ps_mw=0.3, qs_mvar=0.1, pz_mw=0.4, qz_mvar=0.2, r_ohm=0.5, x_ohm=2., vm_pu=1.0)
+    pp.create_xward(net, b[1], ps_mw=0.2, qs_mvar=0.1, pz_mw=0.3, qz_mvar=0.25, r_ohm=0.5, x_ohm=2., vm_pu=1.0, in_service=False)
+    pp.create_ward(net, b[1], ps_mw=0.2, qs_mvar=0.1, pz_mw=0.35, qz_mvar=0.15, in_service=False)
+    pp.runpp(net)
+    vm = net.res_bus.vm_pu
+    for i in net.shunt.index:
+        s = net.shunt.loc[i]
+        vn = s.vn_kv if not np.isnan(s.vn_kv) else net.bus.vn_kv.at[s.bus]
+        k = float(s.in_service) * s.step * (vm.at[s.bus] * net.bus.vn_kv.at[s.bus] / vn) ** 2
+        for q in ("p_mw", "q_mvar"):
+            if not np.isclose(net.res_shunt.at[i, q], k * s[q], atol=1e-9):
+                fails.append(f"shunt {i}: {q} = {net.res_shunt.at[i, q]:.6f}, the law step * {q} * (vm * vn_bus / vn_shunt)^2 gives {k * s[q]:.6f}")
+    for i in net.ward.index:
+        w = net.ward.loc[i]
+        for q, cs, cz in (("p_mw", "ps_mw", "pz_mw"), ("q_mvar", "qs_mvar", "qz_mvar")):
+            want = (w[cs] + w[cz] * vm.at[w.bus] ** 2) * float(w.in_service)
+            if not np.isclose(net.res_ward.at[i, q], want, atol=1e-9):
+                fails.append(f"ward {i}: {q} = {net.res_ward.at[i, q]:.6f}, constant power + vm^2 * constant impedance gives {want:.6f}")
+    for bus in net.bus.index:
+        for q, fr, to in (("p_mw", "p_from_mw", "p_to_mw"), ("q_mvar", "q_from_mvar", "q_to_mvar")):
+            branch = net.res_line[fr][net.line.from_bus == bus].sum() + net.res_line[to][net.line.to_bus == bus].sum()
+            el = sum(net["res_" + et][q][net[et].bus == bus].sum() for et in ("load", "shunt", "ward", "xward")) \
+                - net.res_ext_grid[q][net.ext_grid.bus == bus].sum()
+            if abs(branch + el) > 1e-5:
+                fails.append(f"bus {bus}: the lines take {branch:.6f} and the elements {el:.6f} ({q}): no nodal balance with the reported "
+                             f"shunt / ward / xward results")
+    for f in fails:
+        print("REPRODUCED:", f)
+    if not fails:
+        print("not reproduced: shunt, ward and xward results follow the voltage law and balance at their buses")
+    sys.exit(1 if fails else 0)
+
+
 if __name__ == "__main__":
     main()
